@@ -473,9 +473,11 @@ def _real_lr_sequence(sc, hi) -> str:
 
 # --------------------------------------------------------------------------------------------------
 # (iii) histories
-def gen_history(rng, k=1, opt=None):
-    c = toy.gen_cfg(rng, k=k, T=rng.randint(6, 16), bs=rng.randint(1, 3))
-    c["ck"] = rng.randint(1, 4)
+def gen_history(rng, k=1, opt=None, tmax=16):
+    c = toy.gen_cfg(rng, k=k, T=rng.randint(6, 16) if tmax <= 16 else rng.randint(17, tmax), bs=rng.randint(1, 3))
+    c["ck"] = rng.randint(1, 4) if tmax <= 16 else rng.choice([1, 3, 7, 10])
+    if tmax > 16:      # a 17..60-iteration schedule with warm-up and milestones spread over it
+        c["sched"] = dict(c["sched"], milestones=sorted(rng.sample(range(1, c["T"]), 3)), warmup_iters=rng.choice([4, 8, 16]))
     if opt is not None:
         c["opt"] = opt
     stops = []
@@ -650,7 +652,7 @@ def oracle(ctx: Ctx, deep: bool = False):
     hs = [(c, s, p) for c, s, p in st["histories"] if c["k"] == 1]
     for i in range(ctx.budget(14, 150) + (60 if deep else 0)):
         opt = [("adam",), ("sgd", Fr(1, 2)), ("adam",)][i % 3]
-        c, stops = gen_history(rng, k=1, opt=opt)
+        c, stops = gen_history(rng, k=1, opt=opt, tmax=60 if (ctx.thorough or deep) and i % 3 == 0 else 16)
         if i % 2:
             c["sched"] = dict(c["sched"], kind="cosine", max_iters=c["T"], gamma=Fr(1, 10), wf=Fr(1, 1000))
         hs.append((c, stops, None))
